@@ -26,7 +26,10 @@ PROPERTY = 'C08'
 LEVEL = 'fault_enumeration'
 BUDGET_S = {'quick': 150, 'thorough': 2400}
 EXHAUSTIVE = {'quick': False, 'thorough': False}
-RULE = ("cells = 214 legal (firstcond, mask) x 16 NZCV x 6 exception kinds, all enumerated in both tiers; slot contents (marker MOV, the 23 sixteen-bit "
+RULE = ("failsweep: all 65 536 sixteen-bit Thumb words (both tiers; thorough: 6 seeded contexts) and a sweep of hw1[15:4] of the 32-bit Thumb space with seeded "
+        "fields, each executed in an IT slot whose condition fails (seeded cond/NZCV/slot position/mode): nothing but PC and ITSTATE may change, or the word is "
+        "rejected as undefined/unimplemented.  it_block: "
+        "cells = 214 legal (firstcond, mask) x 16 NZCV x 6 exception kinds, all enumerated in both tiers; slot contents (marker MOV, the 23 sixteen-bit "
         "flag-setting data-processing encodings, MOV.W/ADD.W, seeded 32-bit data-processing / bit-field / saturating / parallel / multiply forms, MRS, MSR CPSR_x, "
         "CMP, LDR/STR (16-bit, .W with Rt=SP), LDM/STM.W, LDRD/STRD, NOP, SVC, UDF, and as last slot B/B.W/BL/BX/BLX/MOV pc/LDR pc), injection position, handler ISA and return "
         "sequence seeded per cell (thorough: position enumerated, 4 seeds per cell). distinct_nontrivial = distinct (firstcond, mask, NZCV, position, kind, "
@@ -57,9 +60,12 @@ def plan(tier, seed):
     global _CELLS
     if _CELLS is None:
         _CELLS = cells()
+    # failsweep: EVERY 16-bit Thumb word, and a sweep of the 32-bit Thumb space, executed in an IT slot whose condition fails: nothing may happen
+    fs = lambda n16, rep32: ([{'k': 'failsweep16', 'slice': i, 'of': 64, 'ctx': c} for c in range(n16) for i in range(64)] +
+                             [{'k': 'failsweep32', 'slice': i, 'rep': rep32} for i in range(0, 384, 8)])
     if tier == 'quick':
-        return [{'c': i, 'rep': 0} for i in range(len(_CELLS))] + [{'c': i, 'rep': 1} for i in range(len(_CELLS))]
-    items = []
+        return [{'c': i, 'rep': 0} for i in range(len(_CELLS))] + [{'c': i, 'rep': 1} for i in range(len(_CELLS))] + fs(1, 48)
+    items = fs(6, 512)
     for rep in range(12):
         items += [{'c': i, 'rep': rep} for i in range(len(_CELLS))]
     # position enumerated for the asynchronous kinds
@@ -142,8 +148,79 @@ def _flags_change_outside(word, regs, nzcv):
     return (r.cpsr.value >> 28) != nzcv, [r.get(i) for i in range(8)] != list(regs)
 
 
+def gen_failsweep(item, rng):
+    cfg = {'arch_version': 7, 'have_security_ext': bool(rng.getrandbits(1)), 'have_virt_ext': False, 'have_lpae': False,
+           'memory_system_architecture': 'PMSA', 'number_of_mpu_regions': 12}
+    devices = G.std_devices()
+    G.set_data(devices[2], 0x3C0, bytes(rng.getrandbits(8) for _ in range(0x80)))
+    nzcv = rng.getrandbits(4)
+    cond = rng.choice([c for c in range(14) if not IT.cond_passed(c, nzcv)])
+    mask = rng.choice([8, 8, 4, 0xC, 2])          # last slot (most often: branches are only defined there) or an inner slot
+    cpsr = (G.random_cpsr(rng, cfg, mode=rng.choice(['usr', 'svc', 'sys', 'irq']), thumb=1, e=0) & 0x0FFFFFFF) | nzcv << 28
+    regs = {'cpsr': cpsr, 'pc': G.CODE + 4 * rng.randrange(0, 64), 'sys': {'sctlr': G.sctlr_value(m=0, a=0, u=1, te=1)}, 'R': G.random_regfile(rng, cfg),
+            'spsr': G.random_spsrs(rng, cfg, valid=True)}
+    if item['k'] == 'failsweep16':
+        n = 65536 // item['of']
+        words = [(h << 16) | 0xBF00 for h in range(item['slice'] * n, item['slice'] * n + n)]
+    else:
+        words = []
+        for hi in range(item['slice'], item['slice'] + 8):
+            for _ in range(item['rep']):
+                words.append(((0xE80 + hi) << 4 | rng.getrandbits(4)) << 16 | rng.getrandbits(16))
+        rng.shuffle(words)
+    core = {'config': cfg, 'devices': devices, 'regs': regs, 'words': words, 'force': {'it': cond << 4 | mask, 'ctx': 9, 'thumb': 1}, 'no_poke': []}
+    return {'scenario': 'failsweep', 'cores': [core], 'events': [], 'max_ticks': len(words) + 2, 'stop_at_done': False, 'cond': cond, 'nzcv': nzcv, 'mask': mask}
+
+
+class FailObserver:
+    """every tick starts in an IT slot whose condition fails: the instruction must do nothing (or be rejected as undefined / unimplemented)"""
+
+    def __init__(self, mon):
+        self.mon = mon
+
+    def on_tick(self, b, rec):
+        if rec['what'] != 'step' or rec['nie'] or rec['exc']:
+            return
+        arm = b.cores[0].arm
+        name = type(arm.executed_opcode).__name__
+        site = name[:-2] if name[-2:] in ('A1', 'A2', 'T1', 'T2', 'T3', 'T4') else name
+        kinds = [k for t, k in self.mon.taken if t == rec['tick']]
+        pre, post = rec['pre'], rec['post']
+        if kinds:
+            if any(k != 'und' for k in kinds):
+                b.violate('it.effect', 'failsweep', 'failed_condition_took_exception', 'word %#x under failing condition %d (NZCV %x): %s exception taken' % (
+                    arm.opcode, b.case['cond'], b.case['nzcv'], kinds))
+            else:
+                b.cover.add('~failsweep-und')
+            return
+        if (pre[1] ^ post[1]) & ~0x0600FC00 or pre[2:] != post[2:] or any(x != y for i, (x, y) in enumerate(zip(pre[0], post[0])) if M.RNAMES[i] != 'PC'):
+            chg = [M.RNAMES[i] for i, (x, y) in enumerate(zip(pre[0], post[0])) if x != y and M.RNAMES[i] != 'PC']
+            b.violate('it.effect', site, 'failed_condition_took_effect', '%s (word %#x) under failing condition %d (NZCV %x, ITSTATE %#x): changed %s cpsr %#x -> %#x' % (
+                name, arm.opcode, b.case['cond'], b.case['nzcv'], b.case['cores'][0]['force']['it'], chg, pre[1], post[1]))
+            return
+        mem = (M.peek(arm, G.DATA, 0x1000), M.peek(arm, G.STACKS, 0x1000))
+        if getattr(self, 'mem', mem) != mem:
+            b.violate('it.effect', site, 'failed_condition_took_effect', '%s (word %#x) under failing condition %d wrote memory' % (name, arm.opcode, b.case['cond']))
+        self.mem = mem
+        b.cover.add('failsweep|%s' % site)
+
+
+def run_failsweep(case):
+    from sim.stream import StreamBoard
+    p0 = M.env.print_count[0]
+    b = StreamBoard(case, [])
+    mon = EntryMonitor(b, 0, report=False)
+    b.observers = [mon, FailObserver(mon)]
+    b.run()
+    b.count('prints', M.env.print_count[0] - p0)
+    b.count('fault.failing-slot', b.tick)
+    return {'violations': b.violations, 'cover': b.cover, 'stats': b.stats, 'ticks': b.tick, 'digest': b.digest(), 'interesting': bool(b.violations)}
+
+
 def gen(item, rng, tier):
     global _CELLS
+    if item.get('k') in ('failsweep16', 'failsweep32'):
+        return gen_failsweep(item, rng)
     if _CELLS is None:
         _CELLS = cells()
     f, mask, nzcv, kind = _CELLS[item['c']]
@@ -549,6 +626,8 @@ def run_one(case, ideal):
 
 
 def run(case):
+    if case['scenario'] == 'failsweep':
+        return run_failsweep(case)
     p0 = M.env.print_count[0]
     meta = case['meta']
     bB, oB = run_one(case, False)
@@ -585,6 +664,9 @@ def run(case):
 
 
 def sample(case, res):
+    if case['scenario'] == 'failsweep':
+        return {'scenario': 'failsweep', 'cond': case['cond'], 'nzcv': case['nzcv'], 'mask': case['mask'], 'n_words': len(case['cores'][0]['words']),
+                'words': ['%08x' % w for w in case['cores'][0]['words'][:8]], 'violations': res['violations'][:2]}
     m = case['meta']
     return {'scenario': 'it_block', 'firstcond': m['firstcond'], 'mask': m['mask'], 'nzcv': m['nzcv'], 'kind': m['kind'], 'pos': m['pos'], 'mode': m['mode'], 'te': m['te'],
             'returns': m['returns'], 'slots': [{k: (hex(v) if k == 'w' else v) for k, v in s.items()} for s in m['slots']], 'events': case['events'],
@@ -592,6 +674,21 @@ def sample(case, res):
 
 
 def shrink(case):
+    if case['scenario'] == 'failsweep':
+        words = case['cores'][0]['words']
+        res = run(case)
+        if res['violations']:
+            t = res['violations'][0].get('tick', 0)
+            b_ = None
+            from sim.stream import StreamBoard
+            c = dict(case, max_ticks=t)
+            b_ = StreamBoard(c, [])
+            b_.run()
+            if b_.tick == t and not b_.cores[0].dead and t < len(words):
+                spec = M.snapshot_core_spec(b_.cores[0].arm, case['cores'][0])
+                spec.update(words=[words[t]], force=case['cores'][0]['force'], no_poke=[])
+                yield dict(case, cores=[spec], max_ticks=3)
+        return
     ev = case['events']
     for i in range(len(ev)):
         yield dict(case, events=ev[:i] + ev[i + 1:])
